@@ -204,5 +204,38 @@ func loopbackLeg(r *vlib.Run, thorough bool) {
 			r.Violation(sig, detail)
 		}
 	})
-	r.Assume("loopback leg: real kernel sockets, timing not controlled; payload shapes enumerated, oracle = byte equality in both directions")
+	// connection histories: every sequence of length <= L over the behaviour alphabet, run one after another in this
+	// process (state kept by the copy paths between connections — pooled splice pipes and buffers — is carried over).
+	alpha := []string{"n", "N", "S", "D", "R"}
+	maxLen := 2
+	if thorough {
+		maxLen = 3
+	}
+	var hists [][]string
+	var gen func(prefix []string)
+	gen = func(prefix []string) {
+		if len(prefix) > 0 {
+			hists = append(hists, append([]string(nil), prefix...))
+		}
+		if len(prefix) == maxLen {
+			return
+		}
+		for _, a := range alpha {
+			gen(append(prefix, a))
+		}
+	}
+	gen(nil)
+	hn, hinc := r.Counter("connection_histories"), r.Counter("connection_histories_inconclusive_timeout")
+	for i, h := range hists {
+		// every history is followed by two healthy connections: whatever the history left behind must not reach them
+		sig, inc, detail := control.C05History(append(append([]string(nil), h...), "N", "n"), i)
+		hn.Add(1)
+		if inc {
+			hinc.Add(1)
+		}
+		if sig != "" {
+			r.Violation(sig, detail)
+		}
+	}
+	r.Assume("loopback leg: real kernel sockets, timing not controlled; payload shapes and connection histories enumerated, oracle = byte equality (healthy) / prefix (aborted) in both directions; wall-clock timeouts are counted as inconclusive, never as violations")
 }
